@@ -409,4 +409,6 @@ def std_overrides(real_tower):
         "bool": bool_shim,
         "math": MathShim(real_tower),
     }
+    from .reshim import ReShim
+    d["re"] = ReShim()          # only matters for modules that import re (CPython's matcher rejects symbolic strings)
     return d
